@@ -77,6 +77,7 @@ type Pred struct {
 
 type ContractDB struct {
 	ReadOnly map[string]bool // "pkgpath.Var" declared read-only
+	Stable   map[string]bool // "pkgpath.Var" declared stable
 	Preds  map[string]*Pred
 	ByName map[string]*FnContract
 	byFn   map[*ssa.Function]*FnContract
@@ -191,7 +192,7 @@ func parseClause(text string) (Clause, error) {
 }
 
 var keywords = map[string]bool{"func": true, "props": true, "spec": true, "requires": true, "ensures": true, "assigns": true, "loop": true,
-	"invariant": true, "decreases": true, "unroll": true, "opt": true, "trusted": true, "let": true, "modifies": true, "ghost": true, "cases": true, "table": true, "key": true, "pred": true, "readonly": true}
+	"invariant": true, "decreases": true, "unroll": true, "opt": true, "trusted": true, "let": true, "modifies": true, "ghost": true, "cases": true, "table": true, "key": true, "pred": true, "readonly": true, "stable": true}
 
 // LoadContracts parses every verif_contracts*.go file of the loaded module packages.
 func LoadContracts(p *Program) *ContractDB {
@@ -265,6 +266,14 @@ func (db *ContractDB) parseLines(p *Program, pkgPath, file string, lines []strin
 			}
 			db.ByName[name] = cur
 			db.Order = append(db.Order, cur)
+		case "stable":
+			// stable <package-level variable>...: not written while functions under contract run (keeps its value across havoc)
+			if db.Stable == nil {
+				db.Stable = map[string]bool{}
+			}
+			for _, n := range strings.Fields(it.rest) {
+				db.Stable[pkgPath+"."+n] = true
+			}
 		case "readonly":
 			// readonly <package-level variable>: assumed never written after initialisation (listed as an assumption)
 			if db.ReadOnly == nil {
